@@ -4,6 +4,7 @@ import (
 	"bytes"
 	"context"
 	"errors"
+	"github.com/la5nta/wl2k-go/transport"
 	"io"
 	"net"
 	"strings"
@@ -254,18 +255,36 @@ func H_c15_deadline() {
 		eof = true
 	}
 	const D = 2 * time.Second
+	// the limit comes from the context, from the Dialer's Timeout while the
+	// caller's context allows more, or from the URL's dial_timeout parameter
+	via := symInt(0, 2)
 	ctx, cancel := context.WithTimeout(context.Background(), D)
+	if via != 0 {
+		cancel()
+		ctx, cancel = context.WithTimeout(context.Background(), 20*D)
+	}
 	defer cancel()
+	addr := "verif:1"
+	if symEngine() {
+		c15Conn = newTConn(segs, eof)
+	} else {
+		var sent []byte
+		addr = c15Serve(segs, eof, &sent, make(chan struct{}))
+	}
 	start := time.Now()
 	var conn net.Conn
 	var err error
-	if symEngine() {
-		c15Conn = newTConn(segs, eof)
-		conn, err = DialContext(ctx, "verif:1", "N0CALL", "pw")
-	} else {
-		var sent []byte
-		addr := c15Serve(segs, eof, &sent, make(chan struct{}))
+	switch via {
+	case 0:
 		conn, err = DialContext(ctx, addr, "N0CALL", "pw")
+	case 1:
+		u, perr := transport.ParseURL("telnet://N0CALL:pw@" + addr + "/wl2k")
+		symAssert(perr == nil, "url-ok")
+		conn, err = Dialer{Timeout: D}.DialURLContext(ctx, u)
+	case 2:
+		u, perr := transport.ParseURL("telnet://N0CALL:pw@" + addr + "/wl2k?dial_timeout=2s")
+		symAssert(perr == nil, "url-ok")
+		conn, err = Dialer{Timeout: 10 * D}.DialURLContext(ctx, u)
 	}
 	elapsed := time.Since(start)
 	symAssert(elapsed <= D+500*time.Millisecond, "dial-returns-no-later-than-its-deadline")
